@@ -44,7 +44,11 @@ func Main(args []string) error {
 		repo = "/repo"
 	}
 	if *tmp == "" {
-		d, err := os.MkdirTemp("", "x02-")
+		base := ""
+		if st, err := os.Stat("/dev/shm"); err == nil && st.IsDir() {
+			base = "/dev/shm" // thousands of small files: a RAM file system is five times faster
+		}
+		d, err := os.MkdirTemp(base, "x02-")
 		if err != nil {
 			return err
 		}
@@ -160,6 +164,12 @@ func Main(args []string) error {
 			}
 		}
 		byClass[scs[i].Class]++
+		// by construction of the input (not by what the receiver did): nothing to shift / something to shift
+		if scs[i].Off == 0 && scs[i].NB-int64(scs[i].StartNr) == scs[i].G {
+			st["inputsOnGrid"]++
+		} else {
+			st["inputsOffGrid"]++
+		}
 		sc := scs[i]
 		key, _ := json.Marshal([]any{sc.Tm, sc.D, sc.G, sc.Off, sc.NB, sc.StartNr, sc.Short, sc.K, sc.Creation, sc.Tracks, sc.InitOrder, sc.RoundOrder, sc.ResendInit, sc.Streams, sc.testdata})
 		distinct[string(key)] = true
@@ -177,7 +187,8 @@ func Main(args []string) error {
 	}
 	sort.Strings(classes)
 	tr.PrintStats(map[string]any{"scenarios": len(scs), "events": events, "distinct": len(distinct), "samples": samples,
-		"uploads": st["uploads"], "tuned": st["tuned"], "shifted": st["shifted"], "testdata": nTestdata, "fromModel": nGen,
+		"uploads": st["uploads"], "tuned": st["tuned"], "shifted": st["shifted"],
+		"inputsOnGrid": st["inputsOnGrid"], "inputsOffGrid": st["inputsOffGrid"], "testdata": nTestdata, "fromModel": nGen,
 		"seeded": *n, "classes": len(byClass), "byClass": byClass, "fidelity_compared": st["fidelityCompared"],
 		"fidelity_mismatch": st["fidelityMismatch"], "fidelity_notes": fidNotes})
 	return nil
